@@ -20,6 +20,7 @@ import (
 	"io"
 	"net"
 	"strconv"
+	"sync"
 
 	"github.com/cybergarage/go-logger/log"
 	"github.com/cybergarage/go-redis/redis/auth"
@@ -41,6 +42,7 @@ type Server struct {
 	systemCommandHandler SystemCommandHandler
 	userCommandHandler   UserCommandHandler
 	commandExecutors     Executors
+	commandMutex         sync.Mutex
 }
 
 // NewServer returns a new server instance.
@@ -58,6 +60,7 @@ func NewServer() *Server {
 		systemCommandHandler: nil,
 		userCommandHandler:   nil,
 		commandExecutors:     Executors{},
+		commandMutex:         sync.Mutex{},
 	}
 	server.SetPort(DefaultPort)
 	server.registerCoreExecutors()
@@ -329,7 +332,7 @@ func (server *Server) receive(conn net.Conn, tlsState *tls.ConnectionState) erro
 		var resMsg *Message
 		var reqErr error
 
-		resMsg, reqErr = server.handleMessage(handlerConn, reqMsg)
+		resMsg, reqErr = server.handleMessageExclusively(handlerConn, reqMsg)
 		if reqErr != nil {
 			if !errors.Is(reqErr, ErrQuit) {
 				resMsg = NewErrorMessage(reqErr)
@@ -350,6 +353,16 @@ func (server *Server) receive(conn net.Conn, tlsState *tls.ConnectionState) erro
 	}
 
 	return nil
+}
+
+// handleMessageExclusively handles a client message while no other connection
+// executes a command. Redis executes commands one at a time; commands composed
+// of several handler operations (INCR, APPEND, MSETNX, ...) are only atomic
+// with respect to concurrent clients if the connections do the same.
+func (server *Server) handleMessageExclusively(conn *Conn, msg *proto.Message) (*Message, error) {
+	server.commandMutex.Lock()
+	defer server.commandMutex.Unlock()
+	return server.handleMessage(conn, msg)
 }
 
 // handleMessage handles a client message.
